@@ -62,7 +62,7 @@ def _class_of_value(e: ast.AST) -> Optional[str]:
     return None
 
 
-LATER_RULES = ' Later rules: (R12.6) hand-written visit_K methods of the template compiler pass all fields of K, empty ones included; (R12.7) the pattern list is matched as given; (R12.8) a wildcard never matches an absent child; (R12.9) leaf values are compared type-strictly.'
+LATER_RULES = ' Later rules: (R12.6) hand-written visit_K methods of the template compiler pass all fields of K, empty ones included; (R12.7) the pattern list is matched as given; (R12.8) a wildcard never matches an absent child; (R12.9) leaf values are compared type-strictly; (R12.10) the candidate classes the search selects before matching are a necessary condition of a match for every kind of template (type, tree, wildcard, alternatives).'
 
 
 def check(prog: Program, tier: str) -> Result:
@@ -93,7 +93,8 @@ def check(prog: Program, tier: str) -> Result:
     _r12_7(prog, res)
     _r12_8(prog, res)
     _r12_9(prog, res)
-    res.floors.update({"R12.1": 18, "R12.2": 11, "R12.3": 3, "R12.4": 8, "R12.5": 1, "R12.6": 4, "R12.7": 4, "R12.8": 1, "R12.9": 1})
+    _r12_10(prog, res)
+    res.floors.update({"R12.1": 18, "R12.2": 11, "R12.3": 3, "R12.4": 8, "R12.5": 1, "R12.6": 4, "R12.7": 4, "R12.8": 1, "R12.9": 1, "R12.10": 4})
     return res
 
 
@@ -581,6 +582,161 @@ def _r12_6(prog: Program, res: Result) -> None:
     res.analysed["rebuilt_node_kinds"] = n
 
 
+# ------------------------------------------------------------------------------------------------ R12.10
+TEMPLATE_KINDS = {            # kind of template -> classes an object of that kind is an instance of (as spelled in core.py)
+    "type": {"type"},
+    "tuple": {"tuple"},
+    "Wildcard": {"Wildcard", "ast.AST"},          # core.Wildcard derives from ast.AST: the order of the tests matters
+    "ast.AST": {"ast.AST"},
+}
+
+
+def _always_returns(stmts) -> bool:
+    if not stmts:
+        return False
+    last = stmts[-1]
+    return isinstance(last, (ast.Return, ast.Raise)) or (isinstance(last, ast.If) and _always_returns(last.body) and _always_returns(last.orelse))
+
+
+def _return_cases(stmts, conds):
+    """(conditions, returned expression) for every return of a straight if/return body; conditions are (test, polarity)."""
+    conds = list(conds)
+    for st in stmts:
+        if isinstance(st, ast.If):
+            yield from _return_cases(st.body, conds + [(st.test, True)])
+            yield from _return_cases(st.orelse, conds + [(st.test, False)])
+            body_exits, else_exits = _always_returns(st.body), _always_returns(st.orelse)
+            if body_exits and else_exits:
+                return
+            if body_exits:
+                conds.append((st.test, False))
+            elif else_exits:
+                conds.append((st.test, True))
+        elif isinstance(st, ast.Return):
+            yield conds, st.value
+            return
+        elif isinstance(st, ast.Raise):
+            return
+
+
+def _expr_cases(e, conds):
+    if isinstance(e, ast.IfExp):
+        yield from _expr_cases(e.body, conds + [(e.test, True)])
+        yield from _expr_cases(e.orelse, conds + [(e.test, False)])
+    else:
+        yield conds, e
+
+
+def _kind_truth(test: ast.AST, var: str, kind: str):
+    """Truth of a test for an object of the template kind `kind` bound to `var`: True / False / None (does not say)."""
+    if isinstance(test, ast.UnaryOp) and isinstance(test.op, ast.Not):
+        t = _kind_truth(test.operand, var, kind)
+        return None if t is None else not t
+    if isinstance(test, ast.BoolOp):
+        ts = [_kind_truth(v, var, kind) for v in test.values]
+        if isinstance(test.op, ast.And):
+            return False if False in ts else (None if None in ts else True)
+        return True if True in ts else (None if None in ts else False)
+    if isinstance(test, ast.Call) and norm(test.func) in ("isinstance", "_isinstance_cache") and len(test.args) == 2 \
+            and isinstance(test.args[0], ast.Name) and test.args[0].id == var:
+        classes = test.args[1].elts if isinstance(test.args[1], ast.Tuple) else [test.args[1]]
+        names = {norm(c) for c in classes}
+        if names & TEMPLATE_KINDS[kind]:
+            return True
+        if names <= {"type", "tuple", "Wildcard", "ast.AST", "list", "set", "frozenset", "str", "int"}:
+            return False
+    return None
+
+
+def _r12_10(prog: Program, res: Result) -> None:
+    """The search does not try every node: it first selects the node classes that `can match the template at all`.  That
+    selection has to be a NECESSARY condition of a match for every kind of template the matcher interprets: a type matches
+    its instances, a tree its own class - but a wildcard stands for what ITS template says, and alternatives for what each
+    of them says.  Selecting by `type(template)` for those finds nothing: a pattern that is just a wildcard, or nested
+    alternatives, is never reported although the matcher matches it."""
+    fn = prog.funcs.get(("core", "walk_wildcard"))
+    if fn is None:
+        raise AnalysisError("anchor core.walk_wildcard not found")
+    sites = [c for c in prog.calls_in(fn) if norm(c.func) in ("issubclass", "_issubclas_cache") and len(c.args) == 2]
+    for c in sites:
+        sel = c.args[1]
+        hops = 0
+        while isinstance(sel, ast.Name) and hops < 4:
+            d = single_def_in(fn, sel.id)
+            if d is None:
+                break
+            sel, hops = d, hops + 1
+        # the selection as cases over the template
+        helper, var, cases = None, None, None
+        if isinstance(sel, ast.Call) and len(sel.args) == 1 and isinstance(sel.args[0], ast.Name):
+            r = prog.resolve_call(sel.func, fn.mod, fn)
+            callee = r[1] if r and r[0] == "fn" else None
+            if callee is not None and len(callee.posparams) >= 1:
+                helper, var = callee, callee.posparams[0]
+                cases = list(_return_cases(callee.node.body, []))
+        if cases is None:
+            names = [n.id for n in ast.walk(sel) if isinstance(n, ast.Name)]
+            loop_vars = [norm(l.target) for l in walk_own(fn.node) if isinstance(l, ast.For)]
+            var = next((n for n in names if n in loop_vars), None)
+            if var is None:
+                res.undecided("R12.10", fn.loc(c), fn.fq, short(c, 80), "the selection of candidate classes is not derived from the template of the loop")
+                continue
+            cases = list(_expr_cases(sel, []))
+        where_fn = helper or fn
+        for kind in TEMPLATE_KINDS:
+            verdicts = []
+            for conds, value in cases:
+                truths = [(_kind_truth(t, var, kind), pol) for t, pol in conds]
+                if any(t is not None and t != pol for t, pol in truths):
+                    continue                      # not the case of this kind
+                verdicts.append((conds, value, _selection_adequate(value, var, kind, helper, conds)))
+            if not verdicts:
+                res.bad("R12.10", where_fn.loc(), where_fn.fq, f"candidate classes for a template of kind {kind}",
+                        "no case of the selection covers this kind of template")
+                continue
+            for conds, value, (ok, why) in verdicts:
+                res.decide(ok, "R12.10", where_fn.loc(value), where_fn.fq, f"{norm(value)} # candidate classes for a template of kind {kind}", why)
+
+
+def single_def_in(fn: Func, name: str):
+    defs = [v for _st, v in assignments(fn, name) if v is not None]
+    return defs[0] if len(defs) == 1 else None
+
+
+def _selection_adequate(value: ast.AST, var: str, kind: str, helper: Optional[Func], conds) -> Tuple[bool, str]:
+    text = norm(value)
+    everything = text in ("ast.AST", "object")
+    if kind == "type":
+        ok = text == var or everything
+        return ok, "a type matches its instances: the type itself selects them" if ok else f"a type template matches instances of the type, `{text}` selects something else"
+    if kind == "ast.AST":
+        ok = text == f"type({var})" or everything
+        return ok, "a tree matches nodes of its own class" if ok else f"a tree template matches nodes of its class, `{text}` selects something else"
+    recursive = [c for c in ast.walk(value) if isinstance(c, ast.Call) and helper is not None and isinstance(c.func, ast.Name) and c.func.id == helper.node.name]
+    if kind == "Wildcard":
+        if everything:
+            return True, "every node is a candidate"
+        if any(len(c.args) == 1 and norm(c.args[0]) == f"{var}.template" for c in recursive) and value in recursive:
+            return True, "decided by what the wildcard stands for"
+        untyped = any(pol and norm(t).replace(" ", "") in (f"{var}.templateisobject", f"objectis{var}.template") for t, pol in conds)
+        classes = value.elts if isinstance(value, ast.Tuple) else [value]
+        if untyped and all(norm(k) in ("ast.expr", "ast.stmt", "ast.AST") for k in classes) and {"ast.expr", "ast.stmt"} <= {norm(k) for k in classes} | ({"ast.expr", "ast.stmt"} if "ast.AST" in {norm(k) for k in classes} else set()):
+            return True, "an untyped wildcard: the expressions and statements, which is what the search reports"
+        return False, (f"a wildcard matches what ITS template matches; `{text}` selects by the wildcard object itself, no node is an instance of that: "
+                       "a pattern that is just a wildcard (`{{x}}`, a typed wildcard) is never found")
+    if kind == "tuple":
+        for comp in ast.walk(value):
+            if isinstance(comp, (ast.GeneratorExp, ast.ListComp, ast.SetComp)) and norm(comp.generators[0].iter) == var and not comp.generators[0].ifs:
+                tgt = norm(comp.generators[0].target)
+                if any(c is comp.elt and len(c.args) == 1 and norm(c.args[0]) == tgt for c in recursive):
+                    return True, "alternatives: the union of what each alternative selects"
+        if everything:
+            return True, "every node is a candidate"
+        return False, (f"alternatives match what ANY of them matches; `{text}` selects by the tuple object itself: nested alternatives are never found")
+    return False, "unknown kind"
+
+
+
 # ------------------------------------------------------------------------------------------------ R12.5
 def _r12_5(prog: Program, res: Result) -> None:
     """Search completeness of the list matcher: inside the loop over the quantifier expansions a `return` may only
@@ -745,6 +901,10 @@ VARIANTS = [
     Variant("empty-type-params-not-carried-over", "FIRE", "core", '        if hasattr(node, "type_params"):  # class A[T]', '        if getattr(node, "type_params", None):  # class A[T]', "R12.6"),
     Variant("absent-template-field-never-fails", "FIRE", "core", "        if k not in n_vars and not (t_vars[k] is None or t_vars[k] == []):\n", "        if False and k not in n_vars:\n", "R12.3"),
     Variant("absent-field-test-spelled-with-keys", "SILENT", "core", "    for k in t_vars:\n        if k in ignore:", "    for k in t_vars.keys():\n        if k in ignore:", "R12.3"),
+    Variant("candidates-by-class-of-the-template-object", "FIRE", "core", "        type_matcher = _candidate_types(template)\n", "        type_matcher = template if isinstance(template, type) else type(template)\n", "R12.10"),
+    Variant("candidates-wildcard-case-dropped", "FIRE", "core", "    if isinstance(template, Wildcard):  # what the wildcard stands for decides\n        if template.template is object:  # any piece of code: the expressions and the statements\n            return (ast.expr, ast.stmt)\n        return _candidate_types(template.template)\n", "", "R12.10"),
+    Variant("candidates-first-alternative-only", "FIRE", "core", "        return tuple(_candidate_types(alternative) for alternative in template)\n", "        return _candidate_types(template[0])\n", "R12.10"),
+    Variant("candidates-untyped-wildcard-every-node", "SILENT", "core", "            return (ast.expr, ast.stmt)\n", "            return ast.AST\n", "R12.10"),
     Variant("zero-or-one-needs-one", "FIRE", "core", "            node_counts[(i, node.template)] = (0, 1)\n", "            node_counts[(i, node.template)] = (1, 1)\n", "R12.1"),
     Variant("star-plus-regexes-swapped", "FIRE", "core",
             "        **{name[2:-3]: ZeroOrMany(object) for name in re.findall(r\"\\{\\{\\w+\\*\\}\\}\", source)},\n        **{name[2:-3]: OneOrMany(object) for name in re.findall(r\"\\{\\{\\w+\\+\\}\\}\", source)},",
